@@ -8,7 +8,7 @@ package lnwire
 //@ func (fv *RawFeatureVector) decode
 //@   props C10
 //@   requires 0 <= length && length <= 65535 && 1 <= width && width <= 8
-//@   loop 0 invariant 0 <= i && i <= bitsNumber && bitsNumber == len(data) * width && len(data) == length
+//@   loop 0 invariant 0 <= loopvar(0) && loopvar(0) <= bitsNumber && bitsNumber == len(data) * width && len(data) == length
 //@   site make: assert arg(len) == length
 //@   site call ReadFull: assert arg(0) == r && arg(1) == data
 //@   nowrap-arith
